@@ -164,6 +164,8 @@ func checkC05(c *Ctx, r *Result, tier string) {
 	// ---- R05d -----------------------------------------------------------------------------------
 	c05ContainerKeys(c, r)
 	c05ConcatFresh(c, r)
+	c05LiteralFresh(c, r)
+	c05Constructor(c, r)
 }
 
 // keyRepr classifies the representation of a map key expression.
@@ -423,4 +425,186 @@ func c05ConcatFresh(c *Ctx, r *Result) {
 		r.Instance("R05f", site, pos, "ok", "every returned list is built by make/append in this call (arguments are only copied from)", true)
 	}
 	r.Floor("R05f", n, 1)
+}
+
+// ---- R05g: container literals evaluate to fresh containers ----------------------------------------
+
+func c05LiteralFresh(c *Ctx, r *Result) {
+	pt, err := ExtractProviders(c)
+	if err != nil {
+		r.Undecide("R05g: %v", err)
+		return
+	}
+	n := 0
+	for _, kind := range []string{"list", "map"} {
+		rtT := pt.Kind2Type[kind]
+		if rtT == nil {
+			r.Undecide("R05g: no runtime for node kind %s", kind)
+			continue
+		}
+		eval := c.Method("interpreter", rtT.Obj().Name(), "Eval")
+		if eval == nil {
+			r.Undecide("R05g: Eval of %s not found", rtT.Obj().Name())
+			continue
+		}
+		key := c.FuncKey(eval)
+		fc := &freshCtx{c: c, callers: map[*ssa.Function][]*ssa.Call{}, memo: map[ssa.Value]int{}, why: map[ssa.Value]string{}}
+		bad := ""
+		var walk func(v ssa.Value, d int)
+		walk = func(v ssa.Value, d int) {
+			if d > 10 {
+				return
+			}
+			u := unspill(v)
+			switch u.Type().Underlying().(type) {
+			case *types.Slice, *types.Map:
+				n++
+				if ok, why := fc.fresh(u); !ok {
+					bad = why
+				}
+				return
+			}
+			switch x := u.(type) {
+			case *ssa.Phi:
+				for _, e := range x.Edges {
+					walk(e, d+1)
+				}
+			case *ssa.Const:
+			default:
+				n++
+				bad = accessPath(v) + " (not a container built in this evaluation)"
+			}
+		}
+		for _, rv := range returnedValues(eval, 0) {
+			walk(rv, 0)
+		}
+		site := key + "#literal-fresh"
+		pos := c.Pos(eval.Pos())
+		if bad != "" {
+			r.Instance("R05g", site, pos, "finding", "literal may evaluate to "+bad, true)
+			r.Report(Finding{Rule: "R05g", Site: site, Pos: pos,
+				Msg: fmt.Sprintf("%s: a %s literal can evaluate to a container that already exists (%s): every evaluation of the literal — each call of the function, each loop round — then yields the same container, and an in-place update through one result shows in all others", key, kind, bad)})
+		} else {
+			r.Instance("R05g", site, pos, "ok", "every evaluation returns a container built in that evaluation", true)
+		}
+	}
+	r.Floor("R05g", n, 2)
+}
+
+// ---- R05h: new() runs the constructor of the finished object -------------------------------------
+
+func c05Constructor(c *Ctx, r *Result) {
+	t := inbuildFuncType(c, "new")
+	if t == nil {
+		r.Undecide("R05h: the implementation of new was not found in InbuildFuncMap")
+		return
+	}
+	run := c.Method("interpreter", t.Obj().Name(), "Run")
+	fnRun := c.Method("interpreter", "function", "Run")
+	if run == nil || fnRun == nil {
+		r.Undecide("R05h: Run of %s / of function not found", t.Obj().Name())
+		return
+	}
+	key := c.FuncKey(run)
+	isInitLookup := func(v ssa.Value) (ssa.Value, bool) {
+		var lk *ssa.Lookup
+		switch x := v.(type) {
+		case *ssa.Lookup:
+			lk = x
+		case *ssa.Extract:
+			lk, _ = x.Tuple.(*ssa.Lookup)
+			if x.Index != 0 {
+				lk = nil
+			}
+		}
+		if lk == nil {
+			return nil, false
+		}
+		k := lk.Index
+		if mi, ok := k.(*ssa.MakeInterface); ok {
+			k = mi.X
+		}
+		if s, ok := constString(k); ok && s == "init" {
+			return lk.X, true
+		}
+		return nil, false
+	}
+	var provenance func(v ssa.Value, d int) (ssa.Value, string)
+	provenance = func(v ssa.Value, d int) (ssa.Value, string) {
+		if d > 8 {
+			return nil, "too deep"
+		}
+		switch x := v.(type) {
+		case *ssa.TypeAssert:
+			return provenance(x.X, d+1)
+		case *ssa.Extract:
+			if ta, ok := x.Tuple.(*ssa.TypeAssert); ok {
+				return provenance(ta.X, d+1)
+			}
+			if m, ok := isInitLookup(x); ok {
+				return m, ""
+			}
+			if call, ok := x.Tuple.(*ssa.Call); ok {
+				return nil, "result #" + fmt.Sprint(x.Index) + " of " + callName(call)
+			}
+		case *ssa.Lookup:
+			if m, ok := isInitLookup(x); ok {
+				return m, ""
+			}
+		case *ssa.UnOp:
+			if a, ok := x.X.(*ssa.Alloc); ok {
+				srcs := cellSources(a)
+				if len(srcs) == 1 {
+					return provenance(srcs[0], d+1)
+				}
+			}
+		case *ssa.Phi:
+			var m ssa.Value
+			for _, e := range x.Edges {
+				if _, isC := e.(*ssa.Const); isC {
+					continue
+				}
+				mm, why := provenance(e, d+1)
+				if mm == nil {
+					return nil, why
+				}
+				m = mm
+			}
+			if m != nil {
+				return m, ""
+			}
+		case *ssa.Call:
+			return nil, "result of " + callName(x)
+		}
+		return nil, accessPath(v)
+	}
+	n := 0
+	allInstrs(run, func(in ssa.Instruction) {
+		call, ok := in.(*ssa.Call)
+		if !ok || call.Call.StaticCallee() != fnRun {
+			return
+		}
+		n++
+		site := key + "#constructor"
+		pos := c.Pos(c.InstrPos(in))
+		m, why := provenance(call.Call.Args[0], 0)
+		// the map must be the object under construction: a map made in this call that is also the result
+		isObj := false
+		if m != nil {
+			if mm, ok := unspill(m).(*ssa.MakeMap); ok && mm.Parent() == run {
+				isObj = true
+			}
+		}
+		if isObj {
+			r.Instance("R05h", site, pos, "ok", "the constructor is the `init` member looked up in the object after all templates were merged into it", true)
+			return
+		}
+		if m != nil {
+			why = "looked up in " + accessPath(m) + ", which is not the object under construction"
+		}
+		r.Instance("R05h", site, pos, "finding", "constructor not taken from the finished object: "+why, true)
+		r.Report(Finding{Rule: "R05h", Site: site, Pos: pos,
+			Msg: key + ": the constructor run by new() is not the `init` member of the finished object (" + why + "): with inheritance the object's effective init is the one merged from its templates — an inherited constructor can be skipped or the wrong one run"})
+	})
+	r.Floor("R05h", n, 1)
 }
